@@ -18,6 +18,7 @@ DEFAULT_KNOBS = dict(
     cost_models=None, midrun_sets=('limits', 'penalty', 'constraint', 'bounds', 'termination', 'evalmon', 'stepmon'),
     tight_modes=((None, None), (True, None), (False, None), (True, True), (None, True)),
     p_clipfalse=0.0, constraint_forms=('pure', 'inplace', 'alias'), p_x0_outside=0.3,
+    p_hostile=0.0, p_illegal=0.0, reducers=('max', 'min', 'first'),
     p_interrupt=0.0, p_handler=0.0, p_clock=0.0, p_de_knobs=0.5, small_limits=True,
 )
 
@@ -70,6 +71,19 @@ def gen_solver_plan(seed, tier, prop, knobs=None):
         if bounds is not None and rng.random() < 0.5: bounds = int_box(bounds)
         con = gen.gen_constraint(rng, dim, (bounds['lo'], bounds['hi']) if bounds else None,
                                  forms=k['constraint_forms'])
+    if bounds is not None and rng.random() < k['p_hostile']:
+        i = rng.randrange(dim)
+        if rng.random() < 0.5:
+            con = {'family': 'push_out', 'form': rng.choice(['pure', 'inplace']),
+                   'params': {'i': i, 'by': rng.choice([-50.0, -1.0, 0.75, 3.0, 1e6])}}
+        else:
+            l, h_ = bounds['lo'][i], bounds['hi'][i]
+            a = l if l > -inf else -5.0
+            b = h_ if h_ < inf else 5.0
+            t = round(rng.uniform(a, b), 2)
+            to = (h_ + rng.choice([0.5, 10.0])) if h_ < inf else 1e9
+            con = {'family': 'push_if', 'form': rng.choice(['pure', 'inplace', 'alias']),
+                   'params': {'i': i, 't': t, 'to': max(to, t + 1.0)}}
     if solver in ('DE', 'DE2') and rng.random() < 0.7:
         if bounds and all(b not in (inf, -inf) for b in bounds['lo'] + bounds['hi']) and rng.random() < 0.6:
             init = {'lo': list(bounds['lo']), 'hi': list(bounds['hi'])}
@@ -88,7 +102,7 @@ def gen_solver_plan(seed, tier, prop, knobs=None):
     if rng.random() < k['p_penalty']:
         conf.append({'op': 'set', 'what': 'penalty', 'arg': gen.gen_penalty(rng, dim)})
     if vector:
-        conf.append({'op': 'set', 'what': 'reducer', 'arg': rng.choice(['max', 'min', 'first', 'sum'])})
+        conf.append({'op': 'set', 'what': 'reducer', 'arg': rng.choice(list(k['reducers']))})
     if rng.random() < k['p_term']:
         t = gen.gen_simple_term(rng, solver)
         if t: conf.append({'op': 'set', 'what': 'termination', 'arg': t})
@@ -140,6 +154,9 @@ def gen_solver_plan(seed, tier, prop, knobs=None):
                         ops.append({'op': 'set', 'what': 'constraint', 'arg': None})
                     bounds = nb
                     ops.append({'op': 'set', 'what': 'bounds', 'arg': bounds})
+                    if rng.random() < k['p_illegal']:
+                        bad = dict(bounds); bad['tight'] = False; bad['clip'] = rng.choice([True, False])
+                        ops.append({'op': 'set', 'what': 'bounds', 'arg': bad})
             elif what == 'termination':
                 t = gen.gen_simple_term(rng, solver)
                 if t: ops.append({'op': 'set', 'what': 'termination', 'arg': t})
@@ -184,7 +201,9 @@ def run_solver_plan(plan, oracle_classes, hang_is=None, budget=None):
             h.build()
             try:
                 for op in plan['ops']:
-                    h.do(op)
+                    r = h.do(op)
+                    if r.get('exc') == 'KeyboardInterrupt':
+                        break         # Ctrl-C with no handler installed: the user's program ends here
             except env.SimHang as e:
                 if hang_is:
                     h.violate(hang_is[0], hang_is[1], detail=str(e))
